@@ -34,28 +34,7 @@ static struct { int revalidations; int lengthen_ok; int aligned; } G_b;
 void verif_stub_cache_revalidate (DBusHeader *h)
 { int i; G_b.revalidations++;
   for (i = 0; i <= DBUS_HEADER_FIELD_LAST; i++) { int p = nondet_int (); __CPROVER_assume (p >= 0 || p == _DBUS_HEADER_FIELD_VALUE_NONEXISTENT); h->fields[i].value_pos = p; } }
-/* DBusString length primitives (documented behaviour, dbus-string.c): lengthen may fail and then changes nothing; new
- * bytes are not initialised; shorten never fails and keeps the allocation; align_length appends NUL bytes and
- * cannot fail while the new length still fits the allocation (set_length only reallocates beyond it). */
-int verif_stub_string_get_length (const DBusString *s) { return ((const DBusRealString *) s)->len; }
-dbus_bool_t verif_stub_string_lengthen (DBusString *s, int extra)
-{ DBusRealString *r = (DBusRealString *) s; int k;
-  PRE (extra >= 0 && r == (DBusRealString *) &H.data, "_dbus_string_lengthen: non-negative amount, the header string");
-  if (r->len + extra > r->allocated - 8 && nondet_bool ()) return 0;          /* reallocation needed and refused */
-  __CPROVER_assume (r->len + extra + 8 <= cap);                                 /* the harness block is large enough to model the grown allocation */
-  if (r->len + extra > r->allocated - 8) r->allocated = r->len + extra + 8;
-  for (k = 0; k < 7; k++) if (k < extra) hb[r->len + k] = nondet_uchar ();      /* "the new bytes are not initialized" (extra <= 7 here) */
-  PRE (extra <= 7, "_dbus_string_lengthen: at most the maximum padding");
-  r->len += extra; hb[r->len] = 0; G_b.lengthen_ok = 1; return 1; }
-void verif_stub_string_shorten (DBusString *s, int n)
-{ DBusRealString *r = (DBusRealString *) s; PRE (n >= 0 && n <= r->len, "_dbus_string_shorten: at most the whole string"); r->len -= n; hb[r->len] = 0; }
-dbus_bool_t verif_stub_string_align_length (DBusString *s, int alignment)
-{ DBusRealString *r = (DBusRealString *) s; int to = (r->len + alignment - 1) & ~(alignment - 1), k;
-  PRE (alignment == 8, "_dbus_string_align_length: 8");
-  if (to > r->allocated - 8 && nondet_bool ()) return 0;                       /* would need a reallocation: may fail */
-  __CPROVER_assume (to + 8 <= cap);
-  for (k = 0; k < 7; k++) if (r->len + k < to) hb[r->len + k] = 0;             /* "by appending nul bytes" */
-  r->len = to; hb[to] = 0; G_b.aligned = 1; return 1; }
+#include "c12_strstubs.h"
 
 static void make_header (int min_len)
 {
